@@ -9,7 +9,7 @@ ACK_MS = 1000
 
 def gen_schedule(r, nsteps, weights=None, kinds="GPZDWZGBEF", max_live=3, allow_close=True, allow_reset=False):
     """abstract schedule: list of (event, arg)"""
-    w = dict(start=4, ack=4, rsp=3, tick=3, cancel=1, badack=1, close=0.25, lost=0.15, reset=0.0)
+    w = dict(start=4, ack=4, rsp=3, rsp2=0.5, tick=3, cancel=1, badack=1, close=0.25, lost=0.15, reset=0.0)
     if weights:
         w.update(weights)
     if not allow_close:
@@ -35,6 +35,7 @@ class Trace:
         self.reqs = {}         # id -> dict(kind, blocking, nfrags, timeout, body(hex of HL bytes), started_step)
         self.writes = []       # (step, id, frag index, raw bytes)
         self.raised = []
+        self.merge = set()     # token indices whose model step is merged into the previous one (same real step)
 
 
 def run_schedule(r, sched, drain=True, max_live=3):
@@ -105,6 +106,19 @@ def run_schedule(r, sched, drain=True, max_live=3):
                 tr.tokens.append("R:%d" % hostworld.KEY[tr.reqs[rid]["kind"]])
                 w.rx(hostworld.rsp_bytes(Rsp, rid, int(x * 4) % 4, **kw))
                 record("rsp", m)
+            elif ev == "rsp2":
+                # two responses for the same command inside ONE read (one data_received call)
+                if not tr.reqs:
+                    continue
+                ids = list(tr.reqs)
+                rid = ids[int(x * len(ids))]
+                Rsp, kw = tr.reqs[rid]["rsp"]
+                key = hostworld.KEY[tr.reqs[rid]["kind"]]
+                tr.tokens.append("R:%d" % key)
+                tr.tokens.append("R:%d" % key)
+                tr.merge.add(len(tr.tokens) - 1)
+                w.rx(hostworld.rsp_bytes(Rsp, rid, 1, **kw) + hostworld.rsp_bytes(Rsp, rid, 2, **kw))
+                record("rsp2", m)
             elif ev == "tick":
                 tr.tokens.append("T")
                 w.tick()
@@ -169,11 +183,28 @@ def compare(ctx, traces):
         if not tr.tokens:
             continue
         ms, info = model_steps(a)
-        if ms != tr.steps or int(info["now"]) != (tr.times[-1] if tr.times else 0):
-            bad = next((i for i, (x, y) in enumerate(zip(ms, tr.steps)) if x != y), len(tr.steps) - 1)
+        real_steps = tr.steps
+        if tr.merge:
+            # both frames of one read are acknowledged before any task runs: within a merged step compare the
+            # ACK writes first, then the data writes in order, then the completions
+            def order(st):
+                return [c for c in st if c == "WACK"] + [c for c in st if c != "WACK" and not c.startswith("D")] + \
+                    sorted(c for c in st if c.startswith("D"))
+            merged, flags = [], []
+            for k, st in enumerate(ms):
+                if k in tr.merge and merged:
+                    merged[-1] = order(merged[-1] + st)
+                    flags[-1] = True
+                else:
+                    merged.append(st)
+                    flags.append(False)
+            ms = merged
+            real_steps = [order(st) if f else st for st, f in zip(tr.steps, flags)] if len(flags) == len(tr.steps) else tr.steps
+        if ms != real_steps or int(info["now"]) != (tr.times[-1] if tr.times else 0):
+            bad = next((i for i, (x, y) in enumerate(zip(ms, real_steps)) if x != y), len(real_steps) - 1)
             ctx.mismatch("host", dict(events=tr.tokens, first_differing_step=bad, event=tr.tokens[bad] if bad < len(tr.tokens) else None),
                          dict(step=ms[bad] if bad < len(ms) else None, now=info["now"]),
-                         dict(step=tr.steps[bad] if bad < len(tr.steps) else None, now=tr.times[-1] if tr.times else 0))
+                         dict(step=real_steps[bad] if bad < len(real_steps) else None, now=tr.times[-1] if tr.times else 0))
 
 
 # ---------------------------------------------------------------------------------------------------------
